@@ -204,6 +204,9 @@ impl Property for C10 {
             }
         };
         r.count("cnf_clauses", rec.d.clauses.len() as u64);
+        if case.enc == EncKind::Hybrid {
+            r.count(if max_defender_product(&built.store) >= 32 { "probe_hybrid_aux_var_path" } else { "probe_hybrid_exp_path_only" }, 1);
+        }
         r.count(&format!("enc_{:?}{}", case.enc, if case.range { "_range" } else { "" }), 1);
         for c in &rec.d.clauses {
             for l in c {
